@@ -208,7 +208,14 @@ class Gen:
     def params(self, d: dict) -> str:
         rng = self.rng
         sep = rng.choice([" ", ", ", ";", " ; ", ","]) if len(d) > 1 else ""
-        items = [f"{k}={v}" for k, v in d.items()]
+        def key(k):
+            r = rng.random()
+            return k if r < 0.7 else k.capitalize() if r < 0.85 else k.upper()
+
+        def val(k, v):
+            return v.upper() if k == "randomize" and rng.random() < 0.2 else v
+
+        items = [f"{key(k)}={val(k, v)}" for k, v in d.items()]
         return sep.join(items)
 
     def select_row(self, in_repeat: bool, depth: int):
@@ -289,6 +296,8 @@ class Gen:
             ln = rng.choice(self.ext_lists)
             row["type"] = f"select_one_external {ln}"
             row["choice_filter"] = rng.choice(["a=%s" % self.ref(), "state = %s and a > 1" % self.ref()])
+            if rng.random() < 0.2:
+                row["choice_filter"] = "a = ${last-saved#%s}" % rng.choice(self.top_questions)
         if p:
             row["parameters"] = self.params(p)
         if v != "search" and rng.random() < 0.15:
